@@ -190,7 +190,10 @@ def run_sched(ctx, pid, profiles, n_quick, n_thorough, extra=None, monitor_profi
         impl.update(impl_p)
         for s in probes:
             f = probe_verdict(s, impl_p.get(s["name"], []), [impl.get("%s_serial%d" % (s["name"], n), []) for n in range(len(s["serial"]))])
-            if f:
+            if f and f.get("divergence"):
+                divergences.append(dict(kind="probe", component=s.get("component", "locks"), field="lock scope", detail=f,
+                                        schedule=dict(name=s["name"], cfg=s["cfg"], events=s["events"]), what=f["what"]))
+            elif f:
                 failures.append(f)
         allsched = allsched + probes
     searched = 0
@@ -222,6 +225,19 @@ def probe_verdict(s, recs, serial_recs):
     outcome of one of the two serial orders: the records of the probe's tail (state, return values) are compared with the
     tails of the serial runs (which are themselves compared with the model like every schedule)."""
     n = s["tail"]
+    # probes with a blocking expectation: the conflicting action must wait while the stopped thread holds its lock. If it does,
+    # nothing more is judged when the entry says so (what follows is concurrent in the code as it stands); if it does not, the
+    # lock scope differs from the model's atomic action - the tail then decides between a failing input and a broken tie
+    eb = s.get("expect_blocked")
+    not_blocked = None
+    if eb is not None and len(recs) > eb:
+        blocked = bool(recs[eb]["ret"]) and recs[eb]["ret"][0] == 8
+        if blocked and s.get("blocked_is_enough"):
+            return None
+        if not blocked:
+            not_blocked = dict(signature="probe-lock-scope", divergence=True, name=s["name"], config=s["cfg"], events=s["events"], no_shrink=True,
+                               what="%s: '%s' completed (%s) while the other thread was stopped inside the action holding its lock - the action is not atomic with respect to it, as the model assumes"
+                                    % (s.get("note", s["name"])[:200], recs[eb]["ev"], recs[eb]["ret"]))
     def view(r):
         sn = r["snap"]
         ret = r["ret"] if r["ev"].split()[0] == "call" else None
@@ -232,7 +248,7 @@ def probe_verdict(s, recs, serial_recs):
     mine = [view(r) for r in recs[-n:]]
     for sr in serial_recs:
         if len(sr) >= n and [view(r) for r in sr[-n:]] == mine:
-            return None
+            return not_blocked
     first = None
     for i in range(n):
         if all(len(sr) < n or view(sr[-n + i]) != mine[i] for sr in serial_recs):
